@@ -652,8 +652,9 @@ theorem X_handleChallenge (src n cd es) :
   | none => exact Ho.pure _ (fun _ hp => hp.1)
   | some call0 =>
     refine Ho.pre (P' := XH c pre call0.pkt call0.retries) ?_ (fun st hp => ⟨hp.1, hp.2 _ rfl⟩)
-    refine Ho.ite (fun _ => ?_) (fun _ => Ho.ite (fun _ => ?_) (fun _ => ?_))
+    refine Ho.ite (fun _ => ?_) (fun _ => Ho.ite (fun _ => ?_) (fun _ => Ho.ite (fun _ => ?_) (fun _ => ?_)))
     · exact Ho.bind (X_activeInsert call0 rfl rfl) (fun _ => Ho.pureI _)
+    · ho_walk
     · ho_walk
     · refine Ho.pre (P' := fun st => TI c pre st ∧ 1 ≤ call0.retries) ?_ (fun st hp => ⟨hp.1, hp.2.pos⟩)
       refine Ho.pre_pure' (fun hr => ?_)
